@@ -41,12 +41,14 @@ const LOOP_KINDS: [(&str, &str); 16] = [
 ];
 
 /// templates where the harness itself issues one top-level evaluation per iteration
-const TOPLEVEL_KINDS: [(&str, &str); 5] = [
+const TOPLEVEL_KINDS: [(&str, &str); 6] = [
     ("successive-evaluations", "(list {i} (quote (a b c)) \"lit\")"),
     ("redefinition-of-one-global", "(define c12-g (list {i} {i}))"),
     ("quoted-fresh-symbols", "(quote c12-lit-{i})"),
     ("lambda-per-evaluation", "((lambda (x) (cons x {i})) 1)"),
     ("fresh-unbound-global-names", "c12-unbound-{i}"),
+    // every evaluation fails while it is compiled, after its literal has been put on the heap
+    ("compile-failures-after-a-literal", "(let ((x '({i} 2 3 4 5 6 7 8 9 10))) (if))"),
 ];
 
 struct Measure {
@@ -102,7 +104,7 @@ fn run_template(ctx: &Ctx, kind: &str, live: usize, n: usize, sliced: bool) -> O
             for i in from..to {
                 let f = read(&tpl.replace("{i}", &i.to_string())).map_err(|e| e.to_string())?;
                 let r = s.eval_form(&f).0;
-                let ok = matches!(r, FormResult::Value(_)) || (*name == "fresh-unbound-global-names" && matches!(r, FormResult::Failed(_)));
+                let ok = matches!(r, FormResult::Value(_)) || ((*name == "fresh-unbound-global-names" || *name == "compile-failures-after-a-literal") && matches!(r, FormResult::Failed(_)));
                 if !ok {
                     return Err(format!("`{}`: {}", f, r.short()));
                 }
@@ -170,7 +172,7 @@ impl Prop for C12 {
         "C12"
     }
     fn rule(&self) -> &'static str {
-        "garbage-producing loop templates, one per allocation kind (pairs, lists, vectors, strings, closures and their environments, continuations, checkpoint continuations handed to a recording helper after an earlier 600-deep recursion, code compiled by eval, lambdas compiled by eval, interned symbols, bignums, floats/rationals, promises, mixed) and five harness-driven kinds (successive top-level evaluations, redefinition of one global, fresh quoted symbols, a lambda per evaluation, fresh unbound global names) x live-set size {0, 10, 1000} x n and 10n (quick n=5000, thorough n=10^5). Heap capacity, stack capacity and process live bytes after 10n must be <= 1.5x the values after n + slack (8192 cells / 256 slots / 1 MiB); the live set's checksum must be intact; after every collection no cell unreachable by the harness' traversal may remain allocated. Non-trivial: at least 3 collections happened; distinct by (kind, live, n)."
+        "garbage-producing loop templates, one per allocation kind (pairs, lists, vectors, strings, closures and their environments, continuations, checkpoint continuations handed to a recording helper after an earlier 600-deep recursion, code compiled by eval, lambdas compiled by eval, interned symbols, bignums, floats/rationals, promises, mixed) and six harness-driven kinds (successive top-level evaluations, redefinition of one global, fresh quoted symbols, a lambda per evaluation, fresh unbound global names, evaluations that fail at compile time after allocating a literal) x live-set size {0, 10, 1000} x n and 10n (quick n=5000, thorough n=10^5). Heap capacity, stack capacity and process live bytes after 10n must be <= 1.5x the values after n + slack (8192 cells / 256 slots / 1 MiB); the live set's checksum must be intact; after every collection no cell unreachable by the harness' traversal may remain allocated. Non-trivial: at least 3 collections happened; distinct by (kind, live, n)."
     }
     fn assumptions(&self) -> Vec<&'static str> {
         vec![
